@@ -89,6 +89,21 @@ func checkC13(r *run, c *AV1Case) (CaseInfo, error) {
 	if !bytes.Equal(in, orig) {
 		return ci, failf("payloader modified its input")
 	}
+	if c.SharedRx {
+		// a sender queues this frame's packets and packetises the next frame with the same payloader before they
+		// are sent: the queued packets are the caller's and must stay as they are (checked through everything below)
+		next := *c
+		next.OBUs = append([]OBUSpec{}, c.OBUs...)
+		for i := range next.OBUs {
+			next.OBUs[i].Seed ^= 0x5555AAAA5555AAAA
+		}
+		queued := deepCopy(payloads)
+		_ = pl.Payload(c.MTU, next.input())
+		if !sameFrags(payloads, queued) {
+			return ci, failf("packets returned for one frame changed when the same AV1Payloader packetised the next frame (mtu %d, %d packets)", mtu, len(payloads))
+		}
+		ci.class("next-frame-packetised-before-use")
+	}
 	// expected OBUs as transmitted (size flag cleared) and as the depacketizer returns them
 	var wantTx, wantDep [][]byte
 	layers := map[[2]uint8]bool{}
@@ -323,6 +338,13 @@ func checkC13Leb(r *run, c *LebCase) (CaseInfo, error) {
 	if got := obu.EncodeLEB128(uint(c.V)); got != asInt || pkgobu.EncodeLEB128(uint(c.V)) != asInt {
 		return ci, failf("EncodeLEB128(%d) = %#x, the encoded bytes read as %#x", c.V, got, asInt)
 	}
+	// the caller owns the returned bytes (e.g. sets continuation bits to pad a size field, or appends to them)
+	for i, full := 0, enc[:cap(enc)]; i < len(full); i++ {
+		full[i] ^= 0xFF
+	}
+	if again := obu.WriteToLeb128(uint(c.V)); !bytes.Equal(again, want) {
+		return ci, failf("WriteToLeb128(%d) = %s after the caller overwrote an earlier result, want %s", c.V, hx(again), hx(want))
+	}
 
 	return ci, nil
 }
@@ -497,7 +519,7 @@ func genAV1Case(t *rapid.T) *AV1Case {
 	return c
 }
 
-const ruleC13 = "rapid draws 1-8 OBUs (all 16 types weighted to sequence header/frame/temporal delimiter/tile list, optional extension byte with ids from a per-case alphabet of 1-3 (temporal 0-7, spatial 0-3) pairs so that equal and different layer ids both occur and every pair can, reserved bits free, payload sizes {0,1,2, MTU-1+-3, 2(MTU-1)+-3, 127+-4, 16383+-4, 0-700, sometimes up to 17000, one case in 80 with an OBU of 65533-131073 bytes}), size fields present on all or omitted on the last, optionally non-minimal LEB128 sizes, MTU 2-65535 biased to 2-20, 127-133, 16382-16388; at most about 600 packets per case; one case in six is an 'edge' case: 0-5 small OBUs followed by a large one, with the MTU derived so that the free space in front of the large OBU is 126-130 or 16382-16386 bytes (the LEB128 length-field boundaries). Oracle: independent AV1 RTP parser on every payload (<= MTU, W/length-prefix rule, Z = previous Y, first Z=0, last Y=0, no empty element, has_size_field cleared, one (tid,sid) per packet), byte-exact reassembly, AV1Depacketizer output = OBUs with size fields, AV1Packet + frame.AV1 (directly or through pkg/frame) = OBUs without size field. leb128: WriteToLeb128/ReadLeb128/EncodeLEB128 against an independent codec (quick: +-3 around every 7-bit boundary and drawn values; thorough: all 2^32 values), non-minimal encodings and truncations for the reader. obuheader: all 2^16 byte pairs. Non-trivial = >=2 OBUs with a fragment crossing packets, >=3 elements in one packet, or >=2 distinct layer ids; every leb128/header value; distinct = FNV-64 of the JSON case"
+const ruleC13 = "rapid draws 1-8 OBUs (all 16 types weighted to sequence header/frame/temporal delimiter/tile list, optional extension byte with ids from a per-case alphabet of 1-3 (temporal 0-7, spatial 0-3) pairs so that equal and different layer ids both occur and every pair can, reserved bits free, payload sizes {0,1,2, MTU-1+-3, 2(MTU-1)+-3, 127+-4, 16383+-4, 0-700, sometimes up to 17000, one case in 80 with an OBU of 65533-131073 bytes}), size fields present on all or omitted on the last, optionally non-minimal LEB128 sizes, MTU 2-65535 biased to 2-20, 127-133, 16382-16388; at most about 600 packets per case; one case in six is an 'edge' case: 0-5 small OBUs followed by a large one, with the MTU derived so that the free space in front of the large OBU is 126-130 or 16382-16386 bytes (the LEB128 length-field boundaries). Oracle: independent AV1 RTP parser on every payload (<= MTU, W/length-prefix rule, Z = previous Y, first Z=0, last Y=0, no empty element, has_size_field cleared, one (tid,sid) per packet), byte-exact reassembly, AV1Depacketizer output = OBUs with size fields, AV1Packet + frame.AV1 (directly or through pkg/frame) = OBUs without size field; half of the cases deliver the payloads through one receive buffer wiped before each delivery, and packetise a next frame with the same payloader before the first frame's packets are looked at. leb128: WriteToLeb128/ReadLeb128/EncodeLEB128 against an independent codec (quick: +-3 around every 7-bit boundary and drawn values; thorough: all 2^32 values), non-minimal encodings and truncations for the reader, and a second write after the caller overwrote the first result. obuheader: all 2^16 byte pairs. Non-trivial = >=2 OBUs with a fragment crossing packets, >=3 elements in one packet, or >=2 distinct layer ids; every leb128/header value; distinct = FNV-64 of the JSON case"
 
 func TestC13(t *testing.T) {
 	r := begin(t, "C13", "exploration", ruleC13)
